@@ -105,6 +105,7 @@ type workerOut struct {
 	DetMismatch  []string       `json:"det_mismatch,omitempty"`
 	DetChecked   int            `json:"det_checked,omitempty"`
 	StoppedEarly bool           `json:"stopped_early"`
+	Next         uint64         `json:"next,omitempty"`
 }
 
 func envU(name string, def uint64) uint64 {
@@ -341,8 +342,33 @@ func Main(t *testing.T) {
 	pairs := map[uint64]struct{}{}
 	minimisedSigs := map[string]bool{}
 	progress := os.Getenv("VERIF_PROGRESS")
+	skip := map[uint64]bool{}
+	for _, f := range strings.Split(os.Getenv("VERIF_SKIP"), ",") {
+		if x, err := strconv.ParseUint(strings.TrimSpace(f), 10, 64); err == nil {
+			skip[x] = true
+		}
+	}
+	lastCkpt := time.Now()
 	for i := from; i < to; i += stride {
+		if skip[i] {
+			continue
+		}
 		if progress != "" {
+			if out != "" && time.Since(lastCkpt) > 2*time.Second {
+				// checkpoint: what has been covered so far, and where to resume
+				lastCkpt = time.Now()
+				ck := wo
+				ck.Next = i
+				ck.Hashes = nil
+				for k := range hashes {
+					ck.Hashes = append(ck.Hashes, hex(k))
+				}
+				ck.WallS = time.Since(start).Seconds()
+				if b, err := json.Marshal(ck); err == nil {
+					os.WriteFile(out+".ckpt.tmp", b, 0o644)
+					os.Rename(out+".ckpt.tmp", out+".ckpt")
+				}
+			}
 			os.WriteFile(progress, []byte(strconv.FormatUint(i, 10)), 0o644)
 		}
 		if time.Now().After(deadline) {
@@ -526,4 +552,12 @@ func replay(t *testing.T, h harness, path, out string) {
 		os.WriteFile(out, ob, 0o644)
 	}
 	fmt.Println(string(ob))
+}
+
+// ExitHang is called by a harness whose case exceeded its real-time watchdog:
+// the goroutine cannot be killed, so the worker exits and the orchestrator
+// re-runs the case alone in a fresh process to confirm the hang.
+func ExitHang(detail string) {
+	fmt.Fprintf(os.Stderr, "watchdog: case did not finish: %s\n", detail)
+	os.Exit(3)
 }
